@@ -1,5 +1,5 @@
 (* Proofs/GlobProofs.v — proofs about Expand/Glob.v. *)
-From Verif Require Import Base.Str Proofs.StrProofs Expand.Param Expand.ParamSpec Expand.Glob.
+From Verif Require Import Base.Str Proofs.StrProofs Expand.Param Expand.ParamSpec Expand.Glob Expand.GlobSpec.
 From Coq Require Import ZifyN ZifyNat ZifyBool.
 Open Scope N_scope.
 
@@ -96,15 +96,6 @@ Fixpoint simple_comp (s : str) : bool :=
   | c :: r => negb (c =? 92) && negb (c =? 91) &&
               match r with d :: _ => negb ((c =? 42) && (d =? 42)) | [] => true end && simple_comp r
   end.
-
-(* what the manual calls matching a file name against a pattern component *)
-Definition spec_comp_toks (s : str) : list ptok :=
-  map (fun c => if c =? 42 then TStar else if c =? 63 then TAny else TLit c) s.
-
-Definition bash_name_matches (dotglob : bool) (part name : str) : Prop :=
-  (* a leading dot must be matched explicitly unless dotglob is set *)
-  (dotglob = true \/ starts_with_dot part = true \/ starts_with_dot name = false) /\
-  pmatch (spec_comp_toks part) name.
 
 Lemma comp_toks_tail : forall dg s,
   simple_comp s = true ->
@@ -208,7 +199,7 @@ Proof.
   intros fs o w Hns Hm Hgs. unfold glob.
   rewrite (split_slash_noslash w [] Hns). simpl rev. simpl app.
   cbn [glob_parts]. rewrite (has_meta_not_special w Hm). rewrite Hm. cbn [negb]. rewrite Hgs.
-  unfold glob_dir. rewrite read_dir_root. cbn [andb].
+  cbn [glob_dirs]. unfold glob_dir. rewrite read_dir_root. cbn [andb].
   rewrite map_join_root. rewrite app_nil_r. f_equal. unfold drop_empty.
   destruct (sort_paths (map fst (filter (fun e => comp_matcher (o_dot o) w (fst e)) (entries_of fs [])))) as [|[|c h] t];
     reflexivity.
@@ -302,4 +293,150 @@ Lemma glob_single_sorted : forall fs o w l,
 Proof.
   intros fs o w l Hns Hm Hgs H. rewrite (glob_single fs o w Hns Hm Hgs) in H. inversion H; subst.
   apply drop_empty_sorted. apply sort_strs_sorted.
+Qed.
+
+(* ------------------------------------------------------------------ several components (no active "**") *)
+
+Definition no_globstar (o : gopts) (parts : list str) : Prop :=
+  forall p, In p parts -> (str_eqb p [42; 42] && o_star o) = false.
+
+Definition all_simple (parts : list str) : Prop := forall p, In p parts -> simple_comp p = true.
+
+Definition keep_entry (fs : fsys) (dir : str) (want_dir : bool) (e : str * kind) : bool :=
+  if want_dir then
+    match snd e with
+    | KLink _ => match read_dir fs (path_join2 dir (fst e)) with inr _ => true | inl _ => false end
+    | KDir => true
+    | KFile => false
+    end
+  else true.
+
+Lemma keep_entry_spec : forall fs dir wd e,
+  keep_entry fs dir wd e = true <-> (wd = true -> entry_is_dir fs dir e).
+Proof.
+  intros fs dir wd [n k]. unfold keep_entry, entry_is_dir. simpl. destruct wd.
+  - destruct k as [| |t].
+    + split; [intros H; discriminate|intros H; destruct (H eq_refl)].
+    + split; auto.
+    + destruct (read_dir fs (path_join2 dir n)) as [e|ents].
+      * split; [discriminate|]. intros H. destruct (H eq_refl) as [x Hx]. discriminate.
+      * split; [intros _ _; exists ents; reflexivity|reflexivity].
+  - split; [intros _ H; discriminate|reflexivity].
+Qed.
+
+Lemma glob_dir_in : forall fs d matcher wd new links m',
+  glob_dir fs d matcher wd = Some (new, links) ->
+  (In m' new <-> exists ents e, read_dir fs d = inr ents /\ In e ents /\
+                   keep_entry fs d wd e = true /\ matcher (fst e) = true /\ m' = path_join2 d (fst e)).
+Proof.
+  intros fs d matcher wd new links m' H. unfold glob_dir in H.
+  destruct (read_dir fs d) as [err|ents] eqn:E; [discriminate|]. inversion H; subst. clear H.
+  rewrite in_map_iff. split.
+  - intros (e & Em & Hf). apply filter_In in Hf. destruct Hf as [Hi Hk].
+    apply andb_true_iff in Hk. destruct Hk as [Hk Hm].
+    exists ents, e. repeat split; auto.
+  - intros (ents' & e & Er & Hi & Hk & Hm & Em). inversion Er; subst ents'.
+    exists e. split; [symmetry; exact Em|]. apply filter_In. split; [exact Hi|].
+    apply andb_true_iff. split; assumption.
+Qed.
+
+Lemma glob_dirs_in : forall fs matcher wd ds ms m',
+  glob_dirs fs matcher wd ds = Some ms ->
+  (In m' ms <-> exists d, In d ds /\ exists ents e, read_dir fs d = inr ents /\ In e ents /\
+                   keep_entry fs d wd e = true /\ matcher (fst e) = true /\ m' = path_join2 d (fst e)).
+Proof.
+  intros fs matcher wd ds. induction ds as [|d ds IH]; intros ms m' H; simpl in H.
+  - inversion H; subst. split; [intros []|intros (d & [] & _)].
+  - destruct (glob_dir fs d matcher wd) as [[new links]|] eqn:E; [|discriminate].
+    destruct (glob_dirs fs matcher wd ds) as [more|] eqn:E2; [|discriminate].
+    inversion H; subst. rewrite in_app_iff. rewrite (glob_dir_in _ _ _ _ _ _ m' E). rewrite (IH more m' eq_refl).
+    split.
+    + intros [Hd|(d' & Hi & Hr)]; [exists d; split; [left; reflexivity|exact Hd]|exists d'; split; [right; exact Hi|exact Hr]].
+    + intros (d' & [<-|Hi] & Hr); [left; exact Hr|right; exists d'; split; assumption].
+Qed.
+
+Lemma glob_parts_spec : forall fs o fuel parts matches ms,
+  no_globstar o parts -> all_simple parts ->
+  glob_parts fuel fs o parts matches = GOk ms ->
+  forall p, In p ms <-> exists m, In m matches /\ path_rel fs (o_dot o) parts m p.
+Proof.
+  intros fs o fuel parts. induction parts as [|part rest IH]; intros matches ms Hg Hs H p.
+  - simpl in H. inversion H; subst. simpl. split.
+    + intros Hi. exists p. split; [exact Hi|reflexivity].
+    + intros (m & Hi & ->). exact Hi.
+  - assert (Hg' : no_globstar o rest) by (intros q Hq; apply Hg; right; exact Hq).
+    assert (Hs' : all_simple rest) by (intros q Hq; apply Hs; right; exact Hq).
+    assert (Hgs : (str_eqb part [42; 42] && o_star o) = false) by (apply Hg; left; reflexivity).
+    assert (Hsp : simple_comp part = true) by (apply Hs; left; reflexivity).
+    cbn [glob_parts] in H. cbn [path_rel]. unfold step_rel.
+    destruct (is_special_part part) eqn:Esp.
+    + rewrite (IH _ _ Hg' Hs' H p). split.
+      * intros (m' & Hi & Hr). apply in_map_iff in Hi. destruct Hi as (m & <- & Hm).
+        exists m. split; [exact Hm|]. exists (path_join2 m part). split; [reflexivity|exact Hr].
+      * intros (m & Hm & m' & -> & Hr). exists (path_join2 m part). split; [|exact Hr].
+        apply in_map_iff. exists m. split; [reflexivity|exact Hm].
+    + destruct (has_meta part) eqn:Ehm; cbn [negb] in *.
+      * (* wildcard component *)
+        rewrite Hgs in H.
+        destruct (glob_dirs fs (comp_matcher (o_dot o) part)
+                            (match rest with [] => false | _ :: _ => true end) matches) as [ms1|] eqn:Egd; [|discriminate].
+        rewrite (IH _ _ Hg' Hs' H p). split.
+        -- intros (m' & Hi & Hr).
+           apply (proj1 (glob_dirs_in _ _ _ _ _ m' Egd)) in Hi.
+           destruct Hi as (d & Hd & ents & e & Er & Hie & Hk & Hm & ->).
+           exists d. split; [exact Hd|]. exists (path_join2 d (fst e)). split; [|exact Hr].
+           exists ents, e. repeat split; auto.
+           ++ apply keep_entry_spec. exact Hk.
+           ++ apply (proj1 (comp_matcher_spec (o_dot o) part (fst e) Hsp)) in Hm. apply Hm.
+           ++ apply (proj1 (comp_matcher_spec (o_dot o) part (fst e) Hsp)) in Hm. apply Hm.
+        -- intros (m & Hm & m' & (ents & e & Er & Hie & Hk & Hb & ->) & Hr).
+           exists (path_join2 m (fst e)). split; [|exact Hr].
+           apply (proj2 (glob_dirs_in _ _ _ _ _ _ Egd)).
+           exists m. split; [exact Hm|]. exists ents, e. repeat split; auto.
+           ++ apply keep_entry_spec. exact Hk.
+           ++ apply comp_matcher_spec; assumption.
+      * (* literal component *)
+        rewrite (IH _ _ Hg' Hs' H p). split.
+        -- intros (m' & Hi & Hr). apply in_flat_map in Hi. destruct Hi as (m & Hm & Hi).
+           exists m. split; [exact Hm|]. exists m'. split; [|exact Hr].
+           destruct (read_dir fs (path_join2 m part)) as [[|]|ents] eqn:Er.
+           ++ destruct Hi.
+           ++ destruct rest; simpl in Hi.
+              ** destruct Hi as [<-|[]]. split; [reflexivity|]. rewrite Er. reflexivity.
+              ** destruct Hi.
+           ++ destruct Hi as [<-|[]]. split; [reflexivity|]. rewrite Er. exact I.
+        -- intros (m & Hm & m' & (-> & Hc) & Hr). exists (path_join2 m part). split; [|exact Hr].
+           apply in_flat_map. exists m. split; [exact Hm|].
+           destruct (read_dir fs (path_join2 m part)) as [[|]|ents] eqn:Er.
+           ++ destruct Hc.
+           ++ rewrite Hc. left. reflexivity.
+           ++ left. reflexivity.
+Qed.
+
+Lemma In_drop_empty : forall p l, p <> [] -> (In p (drop_empty l) <-> In p l).
+Proof.
+  intros p [|[|c h] t] Hp; simpl; try reflexivity.
+  split; [auto|]. intros [H|H]; [congruence|exact H].
+Qed.
+
+(* the whole word: every non-empty path returned is a path of the tree whose components match,
+   every such path is returned, and the result is sorted bytewise *)
+Theorem glob_matches_spec : forall fs o w l,
+  no_globstar o (split_slash w []) -> all_simple (split_slash w []) ->
+  glob fs o w = GOk l ->
+  sorted_strs l /\
+  forall p, p <> [] -> (In p l <-> path_rel fs (o_dot o) (split_slash w []) [] p).
+Proof.
+  intros fs o w l Hg Hs H. unfold glob in H.
+  destruct (glob_parts 4096 fs o (split_slash w []) [[]]) as [ms| | |] eqn:E; try discriminate.
+  inversion H; subst. clear H.
+  assert (Hd : match sort_paths ms with [] :: r => r | l0 => l0 end = drop_empty (sort_paths ms))
+    by (destruct (sort_paths ms) as [|[|c h] t]; reflexivity).
+  rewrite Hd. split.
+  - apply drop_empty_sorted. apply sort_strs_sorted.
+  - intros p Hp.
+    rewrite (In_drop_empty p _ Hp). unfold sort_paths. rewrite In_sort_strs.
+    rewrite (glob_parts_spec fs o 4096 _ _ _ Hg Hs E p). split.
+    + intros (m & [<-|[]] & Hr). exact Hr.
+    + intros Hr. exists []. split; [left; reflexivity|exact Hr].
 Qed.
